@@ -255,8 +255,11 @@ class MolecularOrbitals:
     def occsa(self, occsa):
         if self.kind == "generalized":
             raise NotImplementedError
+        occsa = np.array(occsa, dtype=float)
+        if occsa.shape != (self.norba,):
+            # Without this check, NumPy broadcasting would silently accept a wrong length.
+            raise TypeError(f"Expecting shape ({self.norba},) for occsa, got {occsa.shape}")
         if self.kind == "restricted":
-            occsa = np.array(occsa)
             if self.occs is None:
                 self.occs = occsa
                 self.occs_aminusb = occsa.copy()
@@ -304,8 +307,11 @@ class MolecularOrbitals:
     def occsb(self, occsb):
         if self.kind == "generalized":
             raise NotImplementedError
+        occsb = np.array(occsb, dtype=float)
+        if occsb.shape != (self.norbb,):
+            # Without this check, NumPy broadcasting would silently accept a wrong length.
+            raise TypeError(f"Expecting shape ({self.norbb},) for occsb, got {occsb.shape}")
         if self.kind == "restricted":
-            occsb = np.array(occsb)
             if self.occs is None:
                 self.occs = occsb
                 self.occs_aminusb = -occsb
